@@ -1,5 +1,5 @@
 (* C12 -- archives are well-formed and independent of sink and compression. *)
-From Skv Require Import CodecGuards CodecWitness CodecWfFacts.
+From Skv Require Import CodecGuards CodecWitness CodecWfFacts ShowFacts CodecNameFacts.
 From Gen Require Import Snapshot.
 
 (* Every archive the dump produces: the root carries the current protocol and the version; at every position
@@ -23,13 +23,22 @@ Print Assumptions C12_loader_registered.
 
 (* Full statements kept visible (NOT proved in general; checked on the implementation for every generated
    value by harness/impl_codec.py:schema_wf, and on the model by the examples below):
-   members = file references (false under colliding dict keys: C12_members_exact_refuted), names flat. *)
+   members = file references (false under colliding dict keys: C12_members_exact_refuted). *)
 Definition C12_members_exact_full_statement : Prop :=
   forall D base v a, dumps_model D base v = Ok a ->
     forall n, In n (map fst (a_members a)) <-> In n (file_refs (a_schema a)).
-Definition C12_flat_names_full_statement : Prop :=
+
+(* every member name of every archive the dump produces is flat (not empty, no '/', no '\', no ':') and is
+   <id>.npy, <id>.npz, u<n>.bin (a fresh uuid token) or schema.json.  By induction on the value; uses that the decimal
+   rendering of ids yields digits and '-' only (ShowFacts.v, where it is also shown injective). *)
+Theorem C12_flat_names :
   forall D base v a, dumps_model D base v = Ok a ->
     forall n, In n (member_names a) -> flat_name n = true /\ name_shape n.
+Proof. exact dumps_flat_names. Qed.
+Print Assumptions C12_flat_names.
+
+Theorem C12_id_rendering_injective : forall a b : Z, show_Z a = show_Z b -> a = b.
+Proof. exact show_Z_inj. Qed.
 
 Definition members_exact (a : archive) : bool :=
   forallb (fun n => mem n (file_refs (a_schema a))) (map fst (a_members a))
